@@ -12,7 +12,7 @@ import (
 // Engine T — retain/release typestate of pooled packets (DESIGN.md §3 T).
 
 func init() {
-	registerEngine("T", []string{"T1"}, runEngineT)
+	registerEngine("T", []string{"T1", "T2"}, runEngineT)
 }
 
 // refcounted describes a reference-counted type: how references are obtained, retained and released.
@@ -23,13 +23,14 @@ type refcountSpec struct {
 	release string
 	slots   string // field key of the ring that owns one reference per slot
 	started string // field whose false value means "all slots empty"
+	tag     string // field of the element that records which key it was stored under
 }
 
 var refcountSpecs = []refcountSpec{
 	{"internal/rtpbuffer.RetainablePacket", "(*github.com/pion/interceptor/internal/rtpbuffer.RTPBuffer).Get",
 		"(*github.com/pion/interceptor/internal/rtpbuffer.RetainablePacket).Retain", "(*github.com/pion/interceptor/internal/rtpbuffer.RetainablePacket).Release",
-		"internal/rtpbuffer.RTPBuffer.packets", "internal/rtpbuffer.RTPBuffer.started"},
-	{"fixtures/fx.refPkt", "(*fixtures/fx.refRing).Get", "(*fixtures/fx.refPkt).Retain", "(*fixtures/fx.refPkt).Release", "fixtures/fx.refRing.slots", "fixtures/fx.refRing.started"},
+		"internal/rtpbuffer.RTPBuffer.packets", "internal/rtpbuffer.RTPBuffer.started", "internal/rtpbuffer.RetainablePacket.sequenceNumber"},
+	{"fixtures/fx.refPkt", "(*fixtures/fx.refRing).Get", "(*fixtures/fx.refPkt).Retain", "(*fixtures/fx.refPkt).Release", "fixtures/fx.refRing.slots", "fixtures/fx.refRing.started", "fixtures/fx.refPkt.seq"},
 }
 
 // seededCounts is pathCounts started at a given block with count 0 (only paths through `start` are considered).
@@ -127,6 +128,7 @@ func runEngineT(p *Prog, o *obls) {
 				t1Caller(p, o, fn, call, spec)
 			})
 			t1Slots(p, o, fn, spec, &found)
+			t2Tag(p, o, fn, spec)
 			if fullFuncName(fn) == spec.get {
 				found++
 				t1bGet(p, o, fn, spec)
@@ -170,24 +172,45 @@ func t1Caller(p *Prog, o *obls, fn *ssa.Function, get *ssa.Call, spec refcountSp
 				problems = append(problems, fmt.Sprintf("double release: the return at %s can be reached after releasing the packet twice (a buffer still being retransmitted goes back to the pool)", p.instrPos(last)))
 			}
 		}
-		// uses after release
+		// uses after release: of the packet itself, or of memory obtained from it (Header(), Payload())
+		derived := map[ssa.Value]bool{}
+		instrsOf(fn, func(in ssa.Instruction) {
+			if c, ok := in.(*ssa.Call); ok && !isRelease(in) && len(c.Call.Args) > 0 && p.origin(c.Call.Args[0]) == ssa.Value(get) && isRefType(c.Type()) {
+				derived[c] = true
+			}
+		})
 		instrsOf(fn, func(in ssa.Instruction) {
 			if isRelease(in) {
 				return
 			}
-			uses := false
-			for _, op := range in.Operands(nil) {
-				if *op != nil && p.origin(*op) == ssa.Value(get) {
-					uses = true
-				}
-			}
-			if !uses {
+			if _, isDbg := in.(*ssa.DebugRef); isDbg {
 				return
 			}
-			if c, ok := in.(*ssa.Call); ok && c.Call.StaticCallee() != nil {
-				if before[in]&6 != 0 && before[in]&1 == 0 {
-					problems = append(problems, fmt.Sprintf("use after release: %s at %s", c.Call.StaticCallee().Name(), p.instrPos(in)))
+			usesPkt, usesMem := false, false
+			for _, op := range in.Operands(nil) {
+				if *op == nil {
+					continue
 				}
+				if p.origin(*op) == ssa.Value(get) {
+					usesPkt = true
+				}
+				if derived[p.origin(*op)] {
+					usesMem = true
+				}
+			}
+			if !usesPkt && !usesMem {
+				return
+			}
+			c, isCall := in.(*ssa.Call)
+			if !isCall {
+				return
+			}
+			if before[in]&6 != 0 && before[in]&1 == 0 {
+				what := "the packet"
+				if usesMem && !usesPkt {
+					what = "the packet's header/payload memory"
+				}
+				problems = append(problems, fmt.Sprintf("use after release: %s is used by %s at %s after the reference was released (the pooled buffers may already be recycled)", what, shortCallee(calleeName(&c.Call)), p.instrPos(in)))
 			}
 		})
 	}
@@ -381,4 +404,95 @@ func t1bGet(p *Prog, o *obls, fn *ssa.Function, spec refcountSpec) {
 	} else {
 		o.ok("T1", key, p.Pos(fn.Pos()), "every non-nil packet handed out has passed exactly one successful Retain")
 	}
+}
+
+// t2Tag: a function that hands out (returns) an element loaded from a direct-mapped slot ring[k % n] compares the
+// element's tag with the key first — otherwise a colliding entry stored under another key is returned.
+func t2Tag(p *Prog, o *obls, fn *ssa.Function, spec refcountSpec) {
+	if spec.tag == "" {
+		return
+	}
+	instrsOf(fn, func(in ssa.Instruction) {
+		u, ok := in.(*ssa.UnOp)
+		if !ok || u.Op != token.MUL {
+			return
+		}
+		ia, ok := u.X.(*ssa.IndexAddr)
+		if !ok {
+			return
+		}
+		if uu, ok := ia.X.(*ssa.UnOp); !ok || uu.Op != token.MUL {
+			return
+		} else if fa, ok := uu.X.(*ssa.FieldAddr); !ok || fieldKeyAddr(fa) != spec.slots {
+			return
+		}
+		// index is key % n
+		bo, ok := p.origin(ia.Index).(*ssa.BinOp)
+		if !ok || bo.Op != token.REM {
+			if cv, ok := p.origin(ia.Index).(*ssa.Convert); ok {
+				bo, ok = p.origin(cv.X).(*ssa.BinOp)
+				if !ok || bo.Op != token.REM {
+					return
+				}
+			} else {
+				return
+			}
+		}
+		keyLeaves := exprLeaves(p, bo.X)
+		// is the loaded element returned?
+		for _, b := range fn.Blocks {
+			ret, ok := b.Instrs[len(b.Instrs)-1].(*ssa.Return)
+			if !ok || len(ret.Results) == 0 || p.origin(ret.Results[0]) != ssa.Value(u) {
+				continue
+			}
+			key := funcKey(fn) + ":slot-tag"
+			// on the non-nil path to this return a comparison of elem.tag with the key must hold
+			okTag := false
+			for _, s := range nonNilSuccessors(p, fn, u) {
+				// every path from s to ret passes a block dominated by the tag-equal fact: approximate by requiring a
+				// tag comparison whose mismatch branch does not reach ret
+				for _, b2 := range fn.Blocks {
+					c := ifCond(b2)
+					cb, ok := c.(*ssa.BinOp)
+					if !ok || (cb.Op != token.NEQ && cb.Op != token.EQL) {
+						continue
+					}
+					if !(s == b2 || s.Dominates(b2)) {
+						continue
+					}
+					isTag := func(v ssa.Value) bool {
+						if l, ok := v.(*ssa.UnOp); ok && l.Op == token.MUL {
+							if fa, ok := l.X.(*ssa.FieldAddr); ok && fieldKeyAddr(fa) == spec.tag && p.origin(fa.X) == ssa.Value(u) {
+								return true
+							}
+						}
+						return false
+					}
+					isKey := func(v ssa.Value) bool {
+						for _, l := range keyLeaves {
+							if p.origin(v) == p.origin(l) {
+								return true
+							}
+						}
+						return false
+					}
+					if !((p.mentions(cb.X, isTag) && p.mentions(cb.Y, isKey)) || (p.mentions(cb.Y, isTag) && p.mentions(cb.X, isKey))) {
+						continue
+					}
+					mismatch := b2.Succs[0]
+					if cb.Op == token.EQL {
+						mismatch = b2.Succs[1]
+					}
+					if mismatch != b && !reachableFrom(mismatch)[b] {
+						okTag = true
+					}
+				}
+			}
+			if okTag {
+				o.ok("T2", key, p.instrPos(u), "the element taken from slot key%n is only handed out after its tag was compared with the key")
+			} else {
+				o.bad("T2", key, p.instrPos(u), "an element taken from the direct-mapped slot key%n is returned without comparing its tag with the key: a packet stored under a colliding key is handed out as if it were the requested one")
+			}
+		}
+	})
 }
